@@ -69,7 +69,7 @@ package keeper
 //@   modifies state(ctx)
 //@   ensures[C12.aptr.accept]  result <==> (priceTR.RoundID == old(nextRound(ctx, tokenID)))
 //@   ensures[C12.aptr.reject]  !result ==> state(ctx) == old(state(ctx))
-//@   ensures[C12.aptr.advance] result ==> nextRound(ctx, tokenID) == old(nextRound(ctx, tokenID)) + 1 &&
+//@   ensures[C12.aptr.advance,C05.aptr.advance] result ==> nextRound(ctx, tokenID) == old(nextRound(ctx, tokenID)) + 1 &&
 //@        roundRaw(ctx, tokenID, priceTR.RoundID) != nil &&
 //@        unm["x/oracle/types.PriceTimeRound"](roundRaw(ctx, tokenID, priceTR.RoundID)) == norm["x/oracle/types.PriceTimeRound"](priceTR)
 // ... and no more than the configured number of rounds is retained: appending round n drops round n - MaxSizePrices
